@@ -199,3 +199,16 @@ Proof.
   eapply (NoDup_fst_unique cells p); eauto. rewrite Hf.
   apply count_le1_NoDup. intros q. rewrite sortZ_count. now apply NoDup_count_le1.
 Qed.
+
+Lemma filter_length_le {A} (f : A -> bool) (l : list A) : (List.length (filter f l) <= List.length l)%nat.
+Proof. induction l as [|x l IH]; cbn; [lia|]. destruct (f x); cbn; lia. Qed.
+Lemma insert_sorted_length x l : List.length (insert_sorted x l) = S (List.length l).
+Proof. induction l as [|y l IH]; cbn; [reflexivity|]. destruct (x <=? y); cbn; [reflexivity|]. now rewrite IH. Qed.
+Lemma sortZ_length l : List.length (sortZ l) = List.length l.
+Proof. induction l as [|x l IH]; cbn; [reflexivity|]. now rewrite insert_sorted_length, IH. Qed.
+Lemma inplace_kept_length hs l :
+  (List.length (inplace_kept (apply_marks hs (unmarked (sortZ l)))) <= List.length l)%nat.
+Proof.
+  unfold inplace_kept. rewrite map_length. eapply Nat.le_trans; [apply filter_length_le|].
+  rewrite <- (map_length fst), apply_marks_fst, unmarked_fst. now rewrite sortZ_length.
+Qed.
